@@ -23,9 +23,12 @@ ASSUMPTIONS = ["integer outcomes in rolls"]
 EXPLANATION = "theorems C10_choices_fair, C10_hroll_*, C10_proll_distribution, C10_proll_matches_rolls_with_counts, C10_one_draw_per_die"
 
 
-def _h(items):
+def _h(items, mixed=False):
     from dyce import H
 
+    if mixed:
+        # bare outcomes mixed with pairs: H falls back to natural_key ordering, so outcomes() need not be ascending
+        return H([o if c == 1 else (o, c) for o, c in items])
     return H([(o, c) for o, c in items])
 
 
@@ -44,7 +47,7 @@ def impl(case):
 
     k = case["k"]
     if k == "hroll":
-        h = _h(case["h"])
+        h = _h(case["h"], case.get("mixed", False))
         agg, flags = Counter(), set()
         for v, w, log in RC.explore(lambda: h.roll()):
             agg[RC.show_vals([v])] += w
@@ -202,7 +205,7 @@ def generate(rnd, tier, scale):
     for _ in range(n):
         r = rnd.random()
         if r < 0.35:
-            yield dict(k="hroll", h=_rand_h(rnd) if rnd.random() < 0.95 else [])
+            yield dict(k="hroll", h=_rand_h(rnd) if rnd.random() < 0.95 else [], **({"mixed": True} if rnd.random() < 0.15 else {}))
         elif r < 0.8:
             nd = rnd.randint(0, 3)
             base = _rand_h(rnd)
